@@ -418,6 +418,7 @@ def run(chk):
     _close_rule(chk, repo, closei)
 
     middleware_rule(chk, repo)
+    hunt3_rules(chk, repo)
     # ---- C07.capacity (dtable) ---------------------------------------------------------------------------------
     _capacity(chk, avail)
 
@@ -645,6 +646,96 @@ def _capacity(chk, avail):
         chk.exhaustive_domains.append(f"C07.capacity: {rows} rows")
 
 
+def hunt3_rules(chk, repo):
+    """Rules written after the third defect hunt (F176-F179)."""
+    from sa.cfg import ALL
+    rel = repo.func(MOD, f"{CLS}._release")
+    g = cfg_of(rel.node)
+    # ---- C07.release.closed: a connection released into a closed connector is closed, not dropped -------------------------------------------
+    ct = [n for n in g.nodes if n.kind == "test" and norm.raw(n.ast) == "self._closed"]
+    closes = K.nodes_matching(rel, "protocol.close()") + K.nodes_matching(rel, "protocol.abort()")
+    if not ct:
+        chk.analysis_error("C07.release.closed: `if self._closed` not found in BaseConnector._release")
+    else:
+        p = g.find_path(None, lambda n: n is g.exit, lambda n: n in closes, EXPLICIT, start_edges=[(t, "T") for t in ct])
+        if p is None:
+            chk.ok("C07.release.closed", ct[0].ast, "_release() on a closed connector closes the protocol (close() only closed the connections it tracked: a CONNECT tunnel, a connection acquired while closing)")
+        else:
+            chk.violation("C07.release.closed", rel, "if self._closed: return", "protocol.close()", "a connection released after the connector was closed is neither pooled nor closed: its socket stays open until garbage collection", path=g.fmt_path(p))
+    # ---- C07.release.expiry: what _get() would never reuse is not pooled; what is pooled can be judged by _get() ---------------------------
+    pool = [c for c, _b in K.exprs(rel, "self._conns[$K].append($V)")]
+    tests = [i for i in ast.walk(rel.node) if isinstance(i, ast.If) and any(isinstance(r_, ast.Return) for r_ in i.body) and M.contains(i.test, "protocol.should_close")]
+    if not pool or not tests:
+        chk.analysis_error("C07.release.expiry: pool insertion / close-or-pool test not found in BaseConnector._release")
+    else:
+        base = {"self._force_close": False, "should_close": False, "protocol.should_close": False}
+        try:
+            vals = {v: bool(Evaluator({**base, "self._keepalive_timeout": v}).ev(tests[0].test)) for v in (0, 0.0, -1, 15.0, None)}
+        except (AnalysisError, TypeError) as e:
+            vals = {"error": str(e)}
+        if vals.get(0) and vals.get(0.0) and vals.get(-1) and vals.get(15.0) is False and vals.get(None) is False:
+            chk.ok("C07.release.expiry", tests[0], "_release(): with keepalive_timeout <= 0 the connection is closed instead of pooled (the clean-up timer is never armed for it and _get() would find it expired); positive / None timeouts pool")
+        else:
+            chk.violation("C07.release.expiry", tests[0], K.short(tests[0], 80), "or (self._keepalive_timeout is not None and self._keepalive_timeout <= 0)",
+                          f"close-or-pool decision by keepalive_timeout: {vals}: with a timeout of 0 every released connection goes into the pool, _get() finds it expired at once and opens a new one, nothing ever removes it - one leaked socket per request")
+    get = repo.func(MOD, f"{CLS}._get")
+    reuse = [i for i in ast.walk(get.node) if isinstance(i, ast.If) and M.contains(i.test, "$P.is_connected()")]
+    if not reuse:
+        chk.analysis_error("C07.release.expiry: reuse test not found in BaseConnector._get")
+    else:
+        tst = norm.subst(reuse[0].test, norm.fn_defs(get.node)) if hasattr(norm, "subst") else reuse[0].test
+        conn = next(norm.raw(c) for c in ast.walk(reuse[0].test) if isinstance(c, ast.Call) and norm.raw(c.func).endswith(".is_connected"))
+        try:
+            none_ok = bool(Evaluator({conn: True, "t1": 100.0, "t0": 1.0, "self._keepalive_timeout": None, "keepalive_timeout": None}).ev(reuse[0].test))
+            pos_ok = bool(Evaluator({conn: True, "t1": 100.0, "t0": 99.0, "self._keepalive_timeout": 15.0, "keepalive_timeout": 15.0}).ev(reuse[0].test))
+            old_no = not bool(Evaluator({conn: True, "t1": 100.0, "t0": 1.0, "self._keepalive_timeout": 15.0, "keepalive_timeout": 15.0}).ev(reuse[0].test))
+            why = ""
+        except (AnalysisError, TypeError) as e:
+            none_ok = pos_ok = old_no = False
+            why = f" ({type(e).__name__}: {e})"
+        if none_ok and pos_ok and old_no:
+            chk.ok("C07.release.expiry", reuse[0], "_get(): keepalive_timeout=None (which _release() pools) is read as `never expires`; a numeric timeout bounds the idle time")
+        else:
+            chk.violation("C07.release.expiry", reuse[0], K.short(reuse[0], 80), "keepalive_timeout is None or t1 - t0 <= keepalive_timeout",
+                          "the reuse test compares the idle time with keepalive_timeout=None" + why + ": the second request through a connector created with keepalive_timeout=None raises TypeError out of _get(), and the pooled connection it had popped is dropped unclosed")
+    # ---- C07.middleware.error: the digest middleware owns the challenge response until it hands it on ---------------------------------------
+    DG = "aiohttp/client_middleware_digest_auth.py"
+    call = repo.func(DG, "DigestAuthMiddleware.__call__")
+    gc = cfg_of(call.node)
+    sends = [n for n in gc.nodes if n.kind == "stmt" and isinstance(n.ast, ast.Assign) and M.contains(n.ast.value, "handler($R)")]
+    if not sends:
+        chk.analysis_error("C07.middleware.error: `response = await handler(request)` not found in DigestAuthMiddleware.__call__")
+    else:
+        rv = norm.raw(sends[0].ast.targets[0])
+        freed = [n for n in gc.nodes if n.kind == "stmt" and (K.node_has(n, f"{rv}.close()") or K.node_has(n, f"{rv}.release()"))]
+        asserts = [n for n in gc.nodes if n.kind == "stmt" and isinstance(n.ast, ast.Assert)]
+        # exceptional edges only out of nodes that call something (a comparison of locals does not raise)
+        def can_raise(n):
+            return n.ast is not None and any(isinstance(x, (ast.Call, ast.Await, ast.Raise)) for x in ast.walk(n.ast))
+
+        p = None
+        seen = {}
+        work = [(t, [sends[0], t]) for s_ in sends for t, k in gc.succs(s_, ALL) if k == "n"]
+        while work and p is None:
+            n, path = work.pop()
+            # back at the loop head the next iteration begins: that the response was given back by then is rule C07.middleware
+            if n.id in seen or n in freed or n in asserts or n in sends or n.kind == "for":
+                continue
+            seen[n.id] = True
+            if n is gc.raise_:
+                p = path
+                break
+            for t, k in gc.succs(n, ALL):
+                if k in ("x-call", "x-await") and not can_raise(n):
+                    continue
+                work.append((t, path + [t]))
+        if p is None:
+            chk.ok("C07.middleware.error", sends[0].ast, f"every exception raised while the middleware holds `{rv}` (challenge parsing) passes {rv}.close() / release()")
+        else:
+            chk.violation("C07.middleware.error", call, K.short(sends[0].ast), f"except BaseException: {rv}.close(); raise",
+                          "an exception out of _authenticate() (malformed challenge) leaves the 401 response unclosed and its connection acquired: with limit=1 every later request through the session waits forever", path=gc.fmt_path(p))
+
+
 def middleware_rule(chk, repo):
     """A client middleware that sends the request again must give the first response's connection back before it does: with the pool at
     its limit the retry waits for the slot that only its own unread response can free (F120)."""
@@ -660,7 +751,7 @@ def middleware_rule(chk, repo):
         rel = []
         for c in ast.walk(lp):
             if isinstance(c, ast.Call) and isinstance(c.func, ast.Attribute) and c.func.attr in ("release", "close") and c.lineno > sends[0].lineno:
-                lits = [l for cl_ in PC.pc(c, stop=lp, raw=True) for l in cl_]
+                lits = [l for cl_ in PC.pc(c, stop=lp) for l in cl_]
                 # guards on the loop variable (which iteration) and on the authentication outcome are fine
                 other = [l for l in lits if not any(v in l.text for v in lv) and "_authenticate" not in l.text]
                 if not other:
